@@ -4,10 +4,15 @@ Domain : general Colang 2 programs (vf/co2.py: match/send/actions/start/await/ac
          return/abort/break/continue, 1-4 helper flows + main, loops @loop(L1|NEW)) x histories of <= 30 events
          (alphabet events with parameters, Started/Finished of running actions) x tie-break outcomes; thorough tier adds
          ALL histories of length <= 4 over a 3-event alphabet for a family of generated programs.
+         One more program dimension: or-groups whose alternatives are patterns of ONE event (literal / regular expression /
+         other parameter / the same pattern twice), so that one event satisfies several alternatives - with equal or different
+         matching scores - and the merge of the forked heads depends on the tie-break: drawn into half of the generated programs
+         and enumerated (5 constructs x all pattern pairs x all short histories x 3-4 tie-break outcomes).
 Oracle : structural invariants after EVERY run_to_completion (vf/smh.invariants): I1 no pending internal event, I2 every
-         listening flow's live heads are parked on match/WaitForHeads/MergeHeads, I3 finished/stopped instances hold no live
-         head, I4 event_matching_heads equals the from-scratch scan of all waiting match statements (and the reverse map is
-         its inverse), I5 flow_id_states partitions flow_states, I6 referenced actions/children/parents exist.
+         listening flow's live heads are parked on match/WaitForHeads (smh also tolerates MergeHeads; merges_pending() below
+         does not: a head merging statement is executed, not waited on, so no live head may be left there), I3 finished/stopped
+         instances hold no live head, I4 event_matching_heads equals the from-scratch scan of all waiting match statements (and
+         the reverse map is its inverse), I5 flow_id_states partitions flow_states, I6 referenced actions/children/parents exist.
 """
 import itertools
 
@@ -20,14 +25,16 @@ PID = "C09"
 LEVEL = "exploration"
 CASE_TIMEOUT = 40
 RULE = (
-    "enumerated: three hand-written program families (two flows sharing one co-won action; one match statement reached with references of different action types; an activated flow whose scope end stops an action) x ALL histories of length <= 4 (quick) / 5 (thorough) over 5-6 items incl. idle time; generated, 3 of 4 cases: program from the co2 grammar (1-4 helper flows h_i that only reference h_j, j>i; every while body starts with a wait; main ends in "
-    "`match Never()`) x history of 1-30 items (Ev0..Ev3 with v in {None,0,1}; Started/Finished of the k-th running action) x 0-3 tie-break "
-    "choices; 1 of 4 cases: the shipped library (core, timing, avatars) under a generated main that activates 0-5 library flows and loops over 1-4 `when <user flow> / <bot flow>` cases, with histories of user utterances (final/interim/started), Ev0 and Started/Finished of running actions (timers, utterances, gestures, CheckFlowDefinedAction); invariants I1-I6 are evaluated after the start and after every event. Non-trivial = the program forks heads (group/when) AND "
-    "some flow instance with children or actions ended during the history AND the history has >= 10 events; distinct by (program, history)."
+    "enumerated: the same-event or-group family - 5 constructs that fork heads and merge them again (`match A or B`, `match A or B or A`, `match (A and Ev1) or (B and Ev1)`, `when A or B / or when Ev1`, `await fa or fb` with fa/fb waiting for A/B; each program passes the group twice) x ALL 15 pairs {A, B} of 5 patterns of one event (Ev0(), Ev0(v=1), Ev0(v=regex(\"1\")), Ev0(v=regex(\"[01]\")), Ev0(w=2): one event satisfies both alternatives with equal or with different matching scores, or only one of them) x ALL histories of length <= 2 (quick) / 3 (thorough) over Ev0(v=1,w=2), Ev0(v=1), Ev0(v=0,w=2), Ev1, state round trip x tie-break outcomes [] (first candidate), [1], [0,1] (and [2] with three alternatives); plus four hand-written program families (two flows sharing one co-won action; a state round trip while a flow waits inside an open fork; one match statement reached with references of different action types; an activated flow whose scope end stops an action) x ALL histories of length <= 4 (quick) / 5 (thorough) over 5-6 items incl. idle time; generated, 3 of 4 cases: program from the co2 grammar (1-4 helper flows h_i that only reference h_j, j>i; every while body starts with a wait; main ends in "
+    "`match Never()`; in half of the programs waits are rewritten into same-event or-groups: every `match EvA or EvB` with probability 1/2 and every plain `match Ev<k>` with probability 1/2 or 1/4 becomes `match Ev<k>(p1) or Ev<k>(p2) [or Ev<k>(p3)]` with patterns drawn from (), (v=0), (v=1), (v=regex 0), (v=regex 1), (v=regex [01]) - label same-event-or-group) x history of 1-30 items (Ev0..Ev3 with v in {None,0,1}; Started/Finished of the k-th running action) x 0-3 tie-break "
+    "choices; 1 of 4 cases: the shipped library (core, timing, avatars) under a generated main that activates 0-5 library flows and loops over 1-4 `when <user flow> / <bot flow>` cases, with histories of user utterances (final/interim/started), Ev0 and Started/Finished of running actions (timers, utterances, gestures, CheckFlowDefinedAction); invariants I1-I6 are evaluated after the start and after every event (I2 strictly: match or WaitForHeads only, a live head left on a MergeHeads statement is a violation). Tie-breaks are owned by the case (`choices`, cyclic; label tie-break-not-first-candidate = some consumed choice asked for another than the first candidate). Non-trivial = the program forks heads (group/when) AND "
+    "some flow instance with children or actions ended during the history AND the history has >= 10 events; for the same-event family: >= 1 event fed and several heads arrived at one merge statement (a winner was picked); distinct by case (program, history, choices)."
 )
 ASSUMPTIONS = [
     "programs whose own statements raise are C10's domain and are not generated here, so any exception out of run_to_completion is reported",
     "histories contain explicit `age` items (6 s of idle time on the harness-owned clock), otherwise the clock is frozen",
+    "a head merging statement (MergeHeads) is not a waiting statement in the sense of the property: a head that reaches it is merged in the same run_to_completion (winner continues, the others turn inactive) and nothing a later event does could release a head left there, so a live head on MergeHeads after an event counts as 'left on a statement that could still execute'",
+    "events of the generated histories carry the parameter v only (None, 0, 1), so generated same-event alternatives are patterns over v; the second parameter w only occurs in the enumerated family",
 ]
 WALL = {"quick": 170, "thorough": 1500}
 
@@ -98,12 +105,55 @@ def lib_program(case):
     return "\n".join(lines) + "\n"
 
 
+# parameter patterns of one event Ev<k>(v=.., w=..): several of them are satisfied by the same event with the SAME matching score
+# (a literal and a regular expression on the same parameter, overlapping regular expressions, equally specific patterns on
+# different parameters, the same pattern twice), others with different scores (bare Ev<k>() is less specific)
+V_PATTERNS = ["", "v=0", "v=1", 'v=regex("0")', 'v=regex("1")', 'v=regex("[01]")']  # events of generated histories carry v only
+VW_PATTERNS = ["", "v=1", 'v=regex("1")', 'v=regex("[01]")', "w=2"]  # the enumerated family feeds Ev0(v=.., w=..)
+
+
+def _same_event_group(e, pats):
+    return {"k": "raw", "sameev": len(pats), "text": "match " + " or ".join(f"Ev{e}({V_PATTERNS[p]})" for p in pats)}
+
+
+def _walk(stmts):
+    for s in stmts:
+        yield s
+        for key in ("then", "else", "body"):
+            if isinstance(s.get(key), list):
+                yield from _walk(s[key])
+        for c in s.get("cases", []):
+            yield from _walk(c["body"])
+
+
+def _rewrite(draw, stmts, rate):
+    """Turns waits of a generated body into or-groups whose alternatives are patterns of ONE event: every `match A or B`
+    or-group with probability 1/2, a plain `match Ev<k>(..)` with probability 1/rate. A wait stays a wait."""
+    for i, s in enumerate(stmts):
+        if s["k"] == "matchg" and s["op"] == "or" and draw(st.booleans()):
+            stmts[i] = _same_event_group(s["evs"][0], [draw(st.integers(0, len(V_PATTERNS) - 1)) for _ in s["evs"]])
+        elif s["k"] == "match" and draw(st.integers(1, rate)) == 1:
+            n = draw(st.sampled_from([2, 2, 2, 3]))
+            stmts[i] = _same_event_group(s["ev"], [draw(st.integers(0, len(V_PATTERNS) - 1)) for _ in range(n)])
+        for key in ("then", "else", "body"):
+            if isinstance(s.get(key), list):
+                _rewrite(draw, s[key], rate)
+        for c in s.get("cases", []):
+            _rewrite(draw, c["body"], rate)
+
+
 @st.composite
 def _case(draw):
     if draw(st.integers(0, 3)) == 0:
         return draw(_lib_case())
+    prog = draw(co2.programs(profile={"recursion": True}))
+    if draw(st.booleans()):
+        # one more dimension of the program: or-groups over patterns of the same event (co2 itself only draws distinct events)
+        rate = draw(st.sampled_from([2, 4]))
+        for fl in prog["flows"]:
+            _rewrite(draw, fl["body"], rate)
     return {
-        "prog": draw(co2.programs(profile={"recursion": True})),
+        "prog": prog,
         "hist": draw(co2.histories(30)),
         "choices": draw(st.lists(st.integers(0, 3), max_size=3)),
     }
@@ -190,7 +240,78 @@ flow main
 }
 
 
+# or-groups whose alternatives are satisfied by the SAME event (kept apart from FAMILIES, which C11 enumerates as well): every
+# construct that expands to ForkHead .. MergeHeads with several heads arriving at one merge statement in the same processing round
+OR_CONSTRUCTS = {
+    "match": """flow main
+  match {a} or {b}
+  send OutA()
+  match {b} or {a}
+  send OutB()
+  match Never()
+""",
+    "match3": """flow main
+  match {a} or {b} or {a}
+  send OutA()
+  match {b} or {a} or {b}
+  send OutB()
+  match Never()
+""",
+    "and-or": """flow main
+  match ({a} and Ev1()) or ({b} and Ev1())
+  send OutA()
+  match ({b} and Ev1()) or ({a} and Ev1())
+  send OutB()
+  match Never()
+""",
+    "when": """flow main
+  when {a} or {b}
+    send OutA()
+  or when Ev1()
+    send OutC()
+  when {b} or {a}
+    send OutB()
+  or when Ev1()
+    send OutD()
+  match Never()
+""",
+    "await-flows": """flow fa
+  match {a}
+
+flow fb
+  match {b}
+
+flow main
+  await fa or fb
+  send OutA()
+  await fb or fa
+  send OutB()
+  match Never()
+""",
+}
+OR_ITEMS = [["evp", 0, 1, 2], ["evp", 0, 1, None], ["evp", 0, 0, 2], ["ev", 1, None], ["save"]]
+OR_CHOICES = [[], [1], [0, 1], [2]]
+
+
+def or_program(case):
+    a, b = (f"Ev0({VW_PATTERNS[p]})" for p in case["alts"])
+    return OR_CONSTRUCTS[case["construct"]].format(a=a, b=b)
+
+
+def _same_event_cases(tier):
+    n = 2 if tier == "quick" else 3
+    for construct in OR_CONSTRUCTS:
+        for alts in itertools.combinations_with_replacement(range(len(VW_PATTERNS)), 2):
+            for k in range(1, n + 1):
+                for h in itertools.product(OR_ITEMS, repeat=k):
+                    for choices in OR_CHOICES:
+                        if choices == [2] and construct != "match3" and tier == "quick":
+                            continue  # a third candidate only exists with three alternatives
+                        yield {"leg": "or", "family": "same-event-or", "construct": construct, "alts": list(alts), "hist": [list(x) for x in h], "choices": choices}
+
+
 def enumerate_cases(tier):
+    yield from _same_event_cases(tier)
     for name, (text, items) in FAMILIES.items():
         n = 4 if tier == "quick" else 5
         for k in range(1, n + 1):
@@ -263,8 +384,53 @@ class LibSession(smh.Session):
         return ev
 
 
+class Session(smh.Session):
+    """smh.Session plus events with two parameters: ["evp", k, v|None, w|None] -> Ev<k>(v=.., w=..)."""
+
+    def concrete(self, item):
+        if item[0] == "evp":
+            d = {"type": f"Ev{item[1]}"}
+            if item[2] is not None:
+                d["v"] = item[2]
+            if item[3] is not None:
+                d["w"] = item[3]
+            return d
+        return super().concrete(item)
+
+
+def merges_pending(state):
+    """I2, the part about head merging statements: MergeHeads is no waiting statement. A head that arrives there turns MERGING and
+    the merge is executed as soon as the internal events are drained - the winner continues, the other heads turn INACTIVE - so
+    after run_to_completion no live head of a listening flow may stand there any more (no later event could release it)."""
+    s = smh.sm()
+    from nemoguardrails.colang.v2_x.lang.colang_ast import MergeHeads
+
+    bad = []
+    for fs in state.flow_states.values():
+        if not s.is_listening_flow(fs):
+            continue
+        cfg = state.flow_configs[fs.flow_id]
+        for head in fs.heads.values():
+            if head.status == s.FlowHeadStatus.INACTIVE:
+                continue
+            el = cfg.elements[head.position] if 0 <= head.position < len(cfg.elements) else None
+            if head.status == s.FlowHeadStatus.MERGING or isinstance(el, MergeHeads):
+                bad.append(("I2-head-left-on-merge-statement", f"flow {fs.flow_id} ({fs.status.value}) has a {head.status.value} head left on {type(el).__name__} at {head.position}: the merge was never executed, the flow cannot continue"))
+    return bad
+
+
+def invariants(state):
+    return smh.invariants(state) + merges_pending(state)
+
+
 def prop(case):
-    if case.get("leg") == "lib":
+    if case.get("leg") == "or":
+        from collections import Counter
+
+        text = or_program(case)
+        kinds = Counter({"matchg": 1, "when": int(case["construct"] == "when")})
+        mk = lambda: Session(text, case["choices"])  # noqa: E731
+    elif case.get("leg") == "lib":
         text = lib_program(case)
         kinds = {"matchg": 1, "awaitg": 0, "when": 1, "activate": len(case["activate"]), "startact": 1, "awaitact": 0, "while": 1}
         from collections import Counter
@@ -280,12 +446,13 @@ def prop(case):
     else:
         text = co2.render(case["prog"])
         kinds = co2.count_kinds(case["prog"])
-        mk = lambda: smh.Session(text, case["choices"])  # noqa: E731
+        kinds["matchg"] += sum(1 for fl in case["prog"]["flows"] for x in _walk(fl["body"]) if x.get("sameev"))
+        mk = lambda: Session(text, case["choices"])  # noqa: E731
     try:
         s = mk()
     except Exception as e:
         raise Violation("exception-at-start:" + type(e).__name__, f"{e!r}"[:300] + "\n" + text)
-    bad = smh.invariants(s.state)
+    bad = invariants(s.state)
     if bad:
         raise Violation(bad[0][0], f"after start: {bad[0][1]}\n{text}")
     ended_with_children = False
@@ -299,7 +466,7 @@ def prop(case):
         if out is None:
             continue
         fed += 1
-        bad = smh.invariants(s.state)
+        bad = invariants(s.state)
         if bad:
             raise Violation(bad[0][0], f"after event #{i} {item} of {case['hist'][: i + 1]}: {bad[0][1]}\n{text}")
         for fs in s.state.flow_states.values():
@@ -322,11 +489,18 @@ def prop(case):
         labels.append("while")
     if kinds["when"]:
         labels.append("when")
+    if case.get("leg") == "or":
+        labels += ["family:same-event-or", "or-construct:" + case["construct"]]
+    if case.get("prog") and any(x.get("sameev") for fl in case["prog"]["flows"] for x in _walk(fl["body"])):
+        labels.append("same-event-or-group")
+    used = smh.CHOOSER.used
+    if used and case["choices"] and any(case["choices"][i % len(case["choices"])] for i in range(used)):
+        labels.append("tie-break-not-first-candidate")
     if case.get("leg") == "text":
         labels.append("family:" + case["family"])
     elif case.get("leg") == "lib":
         labels.append("library")
-    elif any(f.get("loop") for f in case["prog"]["flows"]):
+    elif case.get("prog") and any(f.get("loop") for f in case["prog"]["flows"]):
         labels.append("loops")
     if case.get("prog") and co2.has_recursion(case["prog"]):
         labels.append("recursive-flow-calls")
@@ -336,4 +510,6 @@ def prop(case):
     view = {"program": text, "history": case["hist"][:12], "flows_alive": len(s.state.flow_states)}
     if case.get("leg") == "text":
         nt = fed >= 3
+    if case.get("leg") == "or":
+        nt = fed >= 1 and smh.CHOOSER.used > 0  # several heads arrived at one merge statement and a winner had to be picked
     return ok(nt=nt, labels=labels, view=view, counters={"events_fed": fed})
